@@ -3,7 +3,7 @@ from engine import sx
 from common import *
 
 PID = "C16"
-TIES = ['encode_varint', 'prepend_compact_size', 'tx_parts', 'tx_whole']   # source-tie files coq/Properties/Tie_<f>.v that belong to this property
+TIES = ['encode_varint', 'prepend_compact_size', 'tx_parts', 'tx_whole', 'tx_ids']   # source-tie files coq/Properties/Tie_<f>.v that belong to this property
 THEOREMS = ["C16_size_vsize", "C16_legacy", "C16_ceil"]
 TECHNIQUE = "Coq proof (length arithmetic over the proved serialisation) + extracted model/spec correspondence on witness-count and item-size boundaries"
 RULE = ("transactions of the C01 generator with witness stacks of 0/1/127/128/252/253/300 items, items of 0..70000 bytes incl. "
